@@ -21,8 +21,12 @@ K_THOROUGH = 25
 RULE = ('Every DoWhile document shape of the tier (verif/gen/c05_shapes.shapes: topologies {1 looped component; chains of '
         '2 in one or two loop stages with relative/absolute inner references; condition in the first or last component; '
         '3 components over 2 loop stages; replicated + aggregating looped components; word-colliding names A/BA/AB} x '
-        'loop-carried binding {none, self, last->first, aggregate->replicated} x import stage {0,1} x binding '
-        '{output, ref, +file on the binding, +file on the usage} (+ never-carried second binding, store_flowir_to_disk '
+        'loop-carried binding {none, self, last->first, aggregate->replicated, replicated->aggregate} x import stage '
+        '{0,1} x binding {output, ref, +file on the binding, +file on the usage}; the same component names reused in two '
+        '(thorough: three) loop stages so that one relative reference text means a different producer per stage; a '
+        'replicated OUTSIDE producer bound to an aggregating looped component; for loop-carried bindings also the file '
+        'name on {loopBinding+usage, original+loopBinding+usage, loopBinding only, original only} (thorough: all 8 '
+        'placements, the same name everywhere) (+ never-carried second binding, store_flowir_to_disk '
         'on/off, relative/absolute binding spelling; thorough: full product, replicate 1 and 2, digit names, copy '
         'bindings) is driven for k = 1..K (K = 12 quick, 25 thorough; both cross the 9->10 boundary); additional '
         'histories interleave restarts (the instance is loaded again with Experiment.experimentFromInstance after '
@@ -37,7 +41,7 @@ RULE = ('Every DoWhile document shape of the tier (verif/gen/c05_shapes.shapes: 
         'true_reference_to_component_id for every outside spelling (8 methods x with/without file x abs/rel) of every '
         'looped component. A state (shape, k, restarts so far) is non-trivial when k >= 1; distinct = distinct states. '
         'Excluded (grey zone): non-looped components whose name contains "#", in-loop :loopref references, loopBindings '
-        'with :loopref/:loopoutput, bindings whose file is given both on the binding and on the usage, non-aggregating '
+        'with :loopref/:loopoutput, bindings whose binding and usage name DIFFERENT files, bindings to direct paths (input/, data/: rejected at load), non-aggregating '
         'consumers of replicated looped components outside the loop.')
 ASSUMPTIONS = [
     'the controller calls instantiate_dowhile_next_iteration with the stored document and currentIteration+1; the check '
@@ -535,7 +539,7 @@ def _sel_arguments_rewritten_twice(f):
         if b.get('carried_from') is None:
             continue
         for (pi, _sp, method, fil) in comp['deps']:
-            if pi == b['carried_from'] and method == b['type'] and (fil or None) == M.binding_effective_file(b):
+            if pi == b['carried_from'] and method == b['type'] and (fil or None) == M.binding_effective_file(b, carried=True):
                 trigger = True
     return trigger and re.search(r'\d+#stage\d+\.\d+#', str(ob.get('got'))) is not None
 
@@ -577,7 +581,29 @@ def _sel_state_of_other_loop(f):
     return False
 
 
-KNOWN_SELECTORS = {'latest_is_lexicographic_max': _sel_latest_lexicographic,
+def _sel_binding_producer_replicated(f):
+    """a further iteration cannot be instantiated when the producer of a binding is replicated (an outside producer
+    of an original binding, or the looped producer of a loopBinding): the ids of the REPLICATED FlowIR are used to
+    recognise the producers of the unreplicated bindings"""
+    ob = f.get('observed') or {}
+    if not _strip(f['sig']).startswith('step-raised:FlowIRReferenceToUnknownComponent'):
+        return False
+    try:
+        loop = M.loops_of(f['case']['shape'])[ob['loop']]
+    except (KeyError, IndexError, TypeError):
+        return False
+    names = []
+    for bname, b in loop['bindings'].items():
+        if (loop.get('outside_replicate') or {}).get(b['outside']):
+            names.append(b['outside'])
+        if b.get('carried_from') is not None and loop['comps'][b['carried_from']].get('replicate'):
+            names.append(bname)
+    err = str(ob.get('error'))
+    return 'Unknown reference' in err and any(('.%s:' % n) in err or (".%s'" % n) in err for n in names)
+
+
+KNOWN_SELECTORS = {'binding_producer_replicated': _sel_binding_producer_replicated,
+                   'latest_is_lexicographic_max': _sel_latest_lexicographic,
                    'aggregate_order_lexicographic': _sel_aggregate_lexicographic,
                    'arguments_rewritten_twice': _sel_arguments_rewritten_twice,
                    'state_of_other_loop_with_same_condition_name': _sel_state_of_other_loop}
